@@ -827,6 +827,9 @@ func (a *sideEffectActor) resolveActors(c context.Context, t Transport, r []*url
 			err = nil
 			continue
 		}
+		// The Public collection is never dereferenced, wherever it is
+		// named.
+		more = filterURLs(more, IsPublic)
 		var recurActors []vocab.Type
 		recurActors, err = a.resolveActors(c, t, more, depth+1, maxDepth)
 		if err != nil {
